@@ -73,6 +73,7 @@ def handleStr (fields : List String) : String :=
       | "fixed" => Decimal.StringFixed a n
       | "pred" => s!"{Decimal.IsZero a} {Decimal.IsNegative a} {Decimal.IsPositive a} {Decimal.Sign a}"
       | "fromint" => Decimal.String (Decimal.NewFromInt n)
+      | "shift" => Decimal.String (Decimal.Shift a n)
       | _ => "bad-op"
     | _, _ => "bad-op"
   | ["gosem", "dec2", op, a, b, n] =>
@@ -97,6 +98,11 @@ def handleStr (fields : List String) : String :=
       | "itoa" => Strings.itoa n
       | "concat" => hexStr (s ++ a)
       | "cmp" => s!"{decide (s < a)} {decide (s = a)}"
+      | "runes" => " ".intercalate ((Strings.runes s).map (fun r => s!"{r.1}:{r.2.toNat}"))
+      | "slice" => showOutcome hexStr (Strings.slice s n (match b.toInt? with | some h => h | none => Strings.byteLen s))
+      | "index" => toString (Strings.Index s a)
+      | "build" => hexStr (Strings.Builder.String (Strings.Builder.WriteRune (Strings.Builder.WriteString s a) (Char.ofNat n.toNat)))
+      | "isdigit" => toString (Unicode.IsDigit (Char.ofNat n.toNat))
       | _ => "bad-op"
     | _, _, _, _ => "bad-op"
   | _ => "no-such-op"
